@@ -98,12 +98,15 @@ NoUnderBuild ==
     AfterOk => \A n \in Closure({NormAt(LastH.cwd, LastH.targs[i]) : i \in 1..Len(LastH.targs)}) \cap Plain :
                    OnAlways(n) \/ ~MustRun(n)
 
-\* the dependency records of a successfully built target are exactly what its last build declared (its .do file, the
-\* absent higher-priority candidates, what the script asked for): nothing lost, nothing left over (C02, C16)
-RecordedDepsExact ==
+\* the dependency records of a successfully built target cover what its last build declared (its .do file, the absent
+\* higher-priority candidates, what the script asked for): nothing is lost (C02, C16).
+\* (Equality does not hold, and the code agrees with the specification there: the `redo-ifchange deps` that redo-unlocked
+\* runs inherits REDO_TARGET of the script that asked for the uncertain target, so that script gets an extra edge to the
+\* checksummed dependency - e.g. roof -> mid in program stamped2plain, where roof.do only asks for top.)
+RecordedDepsCover ==
     (Quiet /\ gh.crashes = 0) => \A t \in Plain :
         (gh.seen[t].built /\ w.db[t].gen /\ ~w.db[t].ovr) =>
-            {<<x.mode, x.s>> : x \in {y \in w.edges : y.t = t /\ ~y.del}} = {<<d.m, d.n>> : d \in gh.seen[t].deps}
+            {<<d.m, d.n>> : d \in gh.seen[t].deps} \subseteq {<<x.mode, x.s>> : x \in {y \in w.edges : y.t = t /\ ~y.del}}
 
 \* at most once per run (C05, C07, C14)
 \* (a target named on the command line of a forced `redo` is rebuilt by that request
